@@ -585,7 +585,17 @@ def dtab_staleness(ctx, prog):
 
 dtab_staleness.rule_id = "C01.DTAB-staleness"
 
-RULES = [sib_children, pdom_sched, dom_stamp, latch, depend_on_cutoff, dtab_mapref, dtab_staleness]
+def sib_var_writes(ctx, prog):
+    """A var write that is parked after the deferred-write queue was drained (or dropped) is not in the graph at the
+    end of the next stabilise: the per-status table of the five writers (C08.SIB-writes), reported here too."""
+    from .engine import run_relabelled
+    from .c08 import sib_writes as f
+    run_relabelled(ctx, prog, f, "C08.SIB-writes", "C01.SIB-var-writes")
+
+
+sib_var_writes.rule_id = "C01.SIB-var-writes"
+
+RULES = [sib_children, pdom_sched, dom_stamp, latch, depend_on_cutoff, dtab_mapref, dtab_staleness, sib_var_writes]
 
 # control signature of the bookkeeping effects this property depends on (rules/ctrlsig.py)
 from .ctrlsig import make_rule as _ctrl_rule  # noqa: E402
